@@ -82,7 +82,7 @@ def declare_all(L):
 
 
 # ------------------------------------------------------------------ generic content dump through the API
-def dump_file(L, path, want_h=True):
+def dump_file(L, path, want_h=True, only_h=False):
     """API-level dump of everything the library reports for a file (read-only): low-level elements,
     vdatas, vgroups, SDS, GR images, annotations.  Used as 'content' for crash/fault/read-only checks.
     Returns a JSON-able dict; raises nothing (errors become entries)."""
@@ -111,6 +111,9 @@ def dump_file(L, path, want_h=True):
                 b.free()
             els["%d/%d" % (bt, fr.value)] = [ln, data]
         out["elements"] = els
+    if only_h:
+        L.Hclose(fid)
+        return out
     L.Vinitialize(fid)
     # vdatas
     vds = {}
